@@ -834,3 +834,103 @@ def C20(run):
          "an obligation Apalache does not discharge within its timeout is reported as such (discharged < obligations); the claim for it then rests on TLC at W<=8 and conformance"])
     if discharged < len(apa):
         run.notes.append("not all symbolic obligations discharged: %s" % [(a["inv"], a["result"]) for a in apa if a["result"] != "discharged"])
+
+
+# ---------------------------------------------------------------------------------------------- C17 / C18
+def _mc_threads(run):
+    good = tlc_mc(run, "MC_Threads", "MC_Threads", workers=NCPU)
+    # vacuity guards: a refcount blip on the shared tree and a static scratch variable MUST be races in the model
+    for cfg in ("MC_Threads_blip", "MC_Threads_scratch"):
+        st = tlc(run, "MC_Threads", cfg, workers=4)
+        if st["ok"] or "NoRace" not in (st["violation"] or ""):
+            raise Infra("vacuity guard: %s should violate NoRace but TLC says: %s" % (cfg, st["violation"]))
+    return good
+
+
+def C17(run):
+    q = run.quick()
+    mc = _mc_threads(run)
+    out = run.path("threads.ndjson")
+    open(out, "w").close()
+    # (i) library globals write-protected after cbor_set_allocs, single-threaded workload
+    libs = build_lib(run, "shared")
+    exe = build_harness(run, libs, "h_threads", ["h_threads.c"], libs=["-ldl"])
+    part = run.path("globals.ndjson")
+    rc, err = run_harness(run, exe, ["globals", "1500" if q else "40000"], part, env={"LD_BIND_NOW": "1"})
+    if rc != 0:
+        report_violation(run, "globals-run " + err[-100:], "workload on write-protected library globals ended abnormally: " + err[-800:], {"stderr": err[-3000:]})
+    open(out, "ab").write(open(part, "rb").read())
+    # inventory of writable symbols (informational)
+    p = sh(["nm", "-S", "--defined-only", libs["lib"]], check=False)
+    writable = sorted(set(l.split()[-1] for l in p.stdout.decode().splitlines() if len(l.split()) >= 3 and l.split()[-2] in "DdBb"))
+    # (ii) N threads under ThreadSanitizer
+    libt = build_lib(run, "tsan")
+    exet = build_harness(run, libt, "h_threads", ["h_threads.c"], extra=["-fsanitize=thread"], libs=["-ldl"])
+    runs = 0
+    seeds = range(run.seed, run.seed + (3 if q else 12))
+    for sd in seeds:
+        for T in ((2, 8, 16) if q else (2, 3, 4, 8, 12, 16)):
+            part = run.path("tsan-%d-%d.ndjson" % (sd, T))
+            rc, err = run_harness(run, exet, ["run", str(T), "150" if q else "1500"], part, env={"VERIF_SEED": str(sd)})
+            runs += 1
+            if rc != 0:
+                m = re.search(r"WARNING: ThreadSanitizer: (.*)\n(?:.*\n){0,12}", err)
+                report_violation(run, "tsan T=%d seed=%d %s" % (T, sd, (m.group(1) if m else "")[:80]), "ThreadSanitizer / abnormal end with %d threads (seed %d): %s" % (T, sd, err[-1500:]),
+                                 {"threads": T, "seed": sd, "stderr": err[-4000:]})
+            open(out, "ab").write(open(part, "rb").read())
+    n = count_lines(out)
+    res = tracecheck(run, "Trace_Threads", out, boundary=None)
+    _report_rejects(run, res, "thread independence", lambda ln, r: "threads %s" % json.dumps(ln)[:200])
+    write_evidence(run, "model_checking", {
+        "states": mc["distinct"], "transitions": mc["generated"], "traces_validated_against_impl": n - len(res["rejects"]),
+        "samples": _sample_lines(out, 1, lambda l: '"globals"' in l) + _sample_lines(out, 1, lambda l: '"join"' in l),
+        "evaluations": runs + 1, "distinct_nontrivial": runs + 1, "tsan_runs": runs, "writable_symbols_of_libcbor": writable,
+        "rule": "one case = one multi-threaded run (T in 2..16 threads x seeds; each thread a seeded workload of decode incl. error paths, serialize, serialize_alloc, copy, describe, construction, encoders on private data plus reads of one shared tree) under ThreadSanitizer with per-thread digests compared to the same workload run alone; plus one single-threaded run with libcbor.so's writable segments write-protected after cbor_set_allocs",
+        "trace_lines_validated_by_TLC": res["lines"], "exhaustive": False},
+        ["the schedules quantifier is discharged in the model: MC_Threads explores every interleaving of the accesses of 3 threads x 3 operations under the footprint discipline (and refutes two footprints that break it)",
+         "the footprint premise is observed on the real code: no store to library-global state (mprotect, schedule-independent), allocator blocks never cross threads, TSan reports races on the observed schedules; that a library without global stores cannot reach another thread's private blocks is an argument, not a checked fact"])
+
+
+def C18(run):
+    q = run.quick()
+    mc = _mc_threads(run)
+    out = run.path("ro.ndjson")
+    open(out, "w").close()
+    trees = 0
+    for variant in ("o0", "o2"):
+        lib = build_lib(run, variant)
+        exe = build_harness(run, lib, "h_ro", ["vh.c", "h_tree.c", "h_gen.c", "h_ro.c"])
+        for mode in ("api", "dec"):
+            part = run.path("ro-%s-%s.ndjson" % (variant, mode))
+            _record_simple(run, exe, [mode, "700" if q else "15000"], part, "read-only operations on a write-protected tree (%s)" % variant)
+            open(out, "ab").write(open(part, "rb").read())
+    n = count_lines(out)
+    res = tracecheck(run, "Trace_ReadOnly", out, boundary=None)
+    def sig(ln, r):
+        bad = [o["op"] for o in ln.get("ops", []) if o.get("writes")]
+        return "ro ops=%s tree=%s" % (bad[:4], [x["t"] for x in ln.get("tree", [])][:10])
+    _report_rejects(run, res, "read-only operation wrote to the inspected tree", sig)
+    # complement: concurrent readers of one shared tree under TSan
+    libt = build_lib(run, "tsan")
+    exet = build_harness(run, libt, "h_threads", ["h_threads.c"], extra=["-fsanitize=thread"], libs=["-ldl"])
+    tr = 0
+    for T in (4, 16):
+        part = run.path("tsan-ro-%d.ndjson" % T)
+        rc, err = run_harness(run, exet, ["run", str(T), "100" if q else "1000"], part, env={"VERIF_SEED": str(run.seed)})
+        tr += 1
+        if rc != 0 and "shared" in err or rc not in (0,) and "ThreadSanitizer" in err:
+            report_violation(run, "tsan-readers T=%d" % T, "concurrent readers of one tree: ThreadSanitizer report: " + err[-1500:], {"threads": T, "stderr": err[-4000:]})
+    shapes, ops = set(), 0
+    with open(out) as f:
+        for l in f:
+            d = json.loads(l)
+            shapes.add(tuple((x["t"], x["nc"]) for x in d["tree"]))
+            ops += len(d["ops"])
+    write_evidence(run, "model_checking", {
+        "states": mc["distinct"], "transitions": mc["generated"], "traces_validated_against_impl": n - len(res["rejects"]),
+        "samples": _sample_lines(out, 1, lambda l: '"tag"' in l),
+        "evaluations": ops, "distinct_nontrivial": len([s for s in shapes if len(s) > 1]), "trees": n, "tsan_reader_runs": tr,
+        "rule": "one case = (tree, read-only operation): trees of the C03 space (construction API incl. shared sub-items, and decoded random encodings) built inside an mmap arena installed through cbor_set_allocs, write-protected before each of serialized_size, serialize (fitting and too-small buffer) and every predicate / getter that hands out no reference on the first 24 nodes; builds -O0 and -O2; distinct = tree shape",
+        "trace_lines_validated_by_TLC": res["lines"], "exhaustive": False},
+        ["a store into the protected arena faults deterministically (schedule-independent); the handler counts it and lets the operation finish; TLC requires the observed write footprint of every read-only operation to be empty, which is the SharedRead footprint under which MC_Threads shows concurrent readers race-free",
+         "the list of read-only operations is a constant of Trace_ReadOnly (cbor_describe, cbor_copy, cbor_array_get and cbor_tag_item are not in it: they are not named by the property / hand out references)"])
